@@ -750,6 +750,10 @@ def _fault_exec(plan, fault, res, ref_ops, ref_fp):
 
         def check_finals(tag):
             fin, _, _ = RC.final_files(chdir)
+            have = set(os.path.join(sd, fn) for sd, fn, T in fin)
+            for rel in sorted(set(pre_sha) - have):
+                out.append(("prefault_file_removed", "%s: %s was finalized before the fault and does not exist any more" % (tag, rel)))
+                del pre_sha[rel]
             for sd, fn, T in fin:
                 rel = os.path.join(sd, fn)
                 sha = K.file_sha(os.path.join(chdir, rel))
